@@ -24,6 +24,12 @@ var jccSet = []string{"JA", "JAE", "JB", "JBE", "JC", "JE", "JG", "JGE", "JL", "
 // genLabelProg draws a program for C03/C16-style oracles.
 // opts: bits16only, withBranches
 func genLabelProg(t *rapid.T, mode int, org int64, withFar bool) Prog {
+	return genLabelProgOpt(t, mode, org, withFar, false)
+}
+
+// genLabelProgOpt: dollarNames lets a label be called "$name". gosk accepts such names everywhere except as
+// branch targets (pass 2 cannot put them into its templates and gives up), so they are never branched to.
+func genLabelProgOpt(t *rapid.T, mode int, org int64, withFar bool, dollarNames bool) Prog {
 	p := Prog{Mode: mode, Org: org}
 	used := map[string]bool{}
 	ser := 1
@@ -37,6 +43,13 @@ func genLabelProg(t *rapid.T, mode int, org int64, withFar bool) Prog {
 	names := make([]string, nlabels)
 	for i := range names {
 		names[i] = genName(t, fmt.Sprintf("lname%d", i), used)
+		if dollarNames && rapid.IntRange(0, 9).Draw(t, fmt.Sprintf("ldollar%d", i)) == 4 {
+			// ("$" alone is the location counter, and the name must stay unique)
+			if cand := "$" + strings.TrimLeft(names[i], "_"); len(cand) > 1 && !used[cand] {
+				used[cand] = true
+				names[i] = cand
+			}
+		}
 	}
 	// positions (statement index after which the label is placed)
 	pos := make([]int, nlabels)
@@ -92,6 +105,9 @@ func genLabelProg(t *rapid.T, mode int, org int64, withFar bool) Prog {
 		case k == 2: // DW $
 			p.Items = append(p.Items, Item{Kind: ItMarker, Ser: ser}, Item{Kind: ItStmt, Text: "DW $", Cls: "ref.dollar", RefAs: "dollar", Ser: ser})
 			ser++
+		case k == 3 && strings.HasPrefix(lab, "$"): // never a branch to a "$name"
+			text, cls := genPlainStmt(t, mode, true)
+			p.Items = append(p.Items, Item{Kind: ItStmt, Text: text, Cls: cls})
 		case k == 3: // branch to a label
 			mn := "JMP"
 			switch rapid.IntRange(0, 3).Draw(t, "brk") {
@@ -128,7 +144,15 @@ func genLabelProg(t *rapid.T, mode int, org int64, withFar bool) Prog {
 				p.Items = append(p.Items, Item{Kind: ItStmt, Text: text, Cls: cls})
 			}
 			reg := regsOf(16)[rapid.IntRange(0, 7).Draw(t, "er3")]
-			switch rapid.IntRange(0, 2).Draw(t, "equduse") {
+			use := rapid.IntRange(0, 3).Draw(t, "equduse")
+			if use == 3 && !withFar {
+				// (not for C16: the shortest form of a register-relative displacement legitimately depends on its value)
+				use = 0
+			}
+			switch use {
+			case 3: // the name as the displacement of a register-relative address
+				mt := rapid.SampledFrom([]string{"MOV AL,[SI+%s]", "MOV [BX+DI+%s],CL", "MOV AX,[BX+%s]", "ADD DX,[BP+%s]"}).Draw(t, "equdmem")
+				p.Items = append(p.Items, Item{Kind: ItMarker, Ser: ser}, Item{Kind: ItStmt, Text: fmt.Sprintf(mt, nm), Cls: "equ.dollar", Ref: nm, RefAs: "memd", Ser: ser})
 			case 0:
 				p.Items = append(p.Items, Item{Kind: ItMarker, Ser: ser}, Item{Kind: ItStmt, Text: fmt.Sprintf("MOV %s,%s", reg, nm), Cls: "equ.dollar", Ref: nm, RefAs: "mov16:" + reg, Ser: ser})
 			case 1:
@@ -136,6 +160,15 @@ func genLabelProg(t *rapid.T, mode int, org int64, withFar bool) Prog {
 			default:
 				p.Items = append(p.Items, Item{Kind: ItMarker, Ser: ser}, Item{Kind: ItStmt, Text: "DD " + nm, Cls: "equ.dollar", Ref: nm, RefAs: "dd", Ser: ser})
 			}
+			ser++
+		case k == 11 && rapid.IntRange(0, 2).Draw(t, "fardollar") == 0: // far jump whose offset is written relative to $
+			fk := rapid.SampledFrom([]int{0, 5, 8, 0x20}).Draw(t, "fardk")
+			kw := ""
+			if !m16 || rapid.Bool().Draw(t, "fardkw") {
+				kw = "DWORD "
+			}
+			ftext := fmt.Sprintf("JMP %s%d:$+%d", kw, rapid.SampledFrom([]int{0, 8, 16}).Draw(t, "fardsel"), fk)
+			p.Items = append(p.Items, Item{Kind: ItMarker, Ser: ser}, Item{Kind: ItStmt, Text: ftext, Cls: "far.dollar", RefAs: fmt.Sprintf("far$:%d", fk), Ser: ser})
 			ser++
 		case k == 7 && withFar: // far jump
 			// with and without a size keyword (in 16-bit mode the offset then has 16 bits)
@@ -363,6 +396,41 @@ func checkLabelProg(pid string, p *Prog) Verdict {
 			if target != want {
 				return fail("branch", classBeforeLabel(p, it.Ref), "%q at %#x lands on %#x, label %s is at %#x", it.Text, org+int64(o), target, it.Ref, want)
 			}
+		case it.RefAs == "memd":
+			o := offs[it.Ser] + 6
+			inst, err := x86asm.Decode(out[o:], mode)
+			if err != nil {
+				return fail("decode", "memd", "%q at %#x does not decode: %v", it.Text, o, err)
+			}
+			var me x86asm.Mem
+			found := false
+			for _, a := range inst.Args {
+				if m, ok := a.(x86asm.Mem); ok {
+					me, found = m, true
+				}
+			}
+			nrefs++
+			m := int64(1)<<uint(inst.AddrSize) - 1
+			if !found || me.Base == 0 || me.Disp&m != want&m {
+				return fail("label", classBeforeLabel(p, it.Ref), "name %s (defined as $): %q decodes as %q, the definition really sits at %#x", it.Ref, it.Text, x86asm.IntelSyntax(inst, 0, nil), want)
+			}
+		case strings.HasPrefix(it.RefAs, "far$:"):
+			o := offs[it.Ser] + 6
+			var fk int64
+			fmt.Sscanf(it.RefAs, "far$:%d", &fk)
+			inst, err := x86asm.Decode(out[o:], mode)
+			if err != nil || len(inst.Args) < 2 {
+				return fail("decode", "far", "%q at %#x does not decode as a far jump: %v", it.Text, o, err)
+			}
+			off, ok := inst.Args[1].(x86asm.Imm)
+			if _, ok0 := inst.Args[0].(x86asm.Imm); !ok || !ok0 {
+				return fail("decode", "far", "%q at %#x decodes as %q", it.Text, o, x86asm.IntelSyntax(inst, 0, nil))
+			}
+			m := int64(1)<<uint(inst.DataSize) - 1
+			nrefs++
+			if w := org + int64(o) + fk; int64(off)&m != w&m {
+				return fail("dollar", "far", "%q at %#x jumps to offset %#x, $+%d is %#x", it.Text, org+int64(o), int64(off)&m, fk, w&m)
+			}
 		case it.RefAs == "mem":
 			o := offs[it.Ser] + 6
 			inst, err := x86asm.Decode(out[o:], mode)
@@ -436,14 +504,14 @@ func checkLabelProg(pid string, p *Prog) Verdict {
 
 var propC03 = &Prop[Prog]{
 	ID:   "C03",
-	Rule: "programs of 2-14 statements (one in a hundred: 300-1200 statements with 20-300 labels; one in four with [BITS n] switches on the way) from every size class (instructions incl. prefixes/SIB/disp32, DB/DW/DD, RESB, ALIGNB, EQU, INT 3/INT n, branches, LGDT, far JMP) with 1-5 labels at arbitrary positions, each followed by a unique marker; references before and after definition (MOV reg,label; DW/DD label; branches; LGDT [label]; the label as the address of a memory operand of MOV/ADD/SUB/CMP/PUSH; trailing DD table; DW $), names defined as 'name EQU $' and used like labels after their definition; ORG from the quantifier's set; oracle: embedded value = origin + marker offset, output length = location counter - origin; non-trivial = accepted, a label with a statement before it, at least one reference; distinct by source text",
+	Rule: "programs of 2-14 statements (one in a hundred: 300-1200 statements with 20-300 labels; one in four with [BITS n] switches on the way) from every size class (instructions incl. prefixes/SIB/disp32, DB/DW/DD, RESB, ALIGNB, EQU, INT 3/INT n, branches, LGDT, far JMP) with 1-5 labels at arbitrary positions, each followed by a unique marker; references before and after definition (MOV reg,label; DW/DD label; branches; LGDT [label]; the label as the address of a memory operand of MOV/ADD/SUB/CMP/PUSH; trailing DD table; DW $), names defined as 'name EQU $' and used like labels after their definition, label names that start with '$' (never branched to); ORG from the quantifier's set; oracle: embedded value = origin + marker offset, output length = location counter - origin; non-trivial = accepted, a label with a statement before it, at least one reference; distinct by source text",
 	Gen: func(t *rapid.T) Prog {
 		mode := rapid.SampledFrom([]int{0, 16, 32}).Draw(t, "mode")
 		org := rapid.SampledFrom(orgSet).Draw(t, "org")
 		if mode == 32 && rapid.IntRange(0, 3).Draw(t, "bigorg") == 0 {
 			org = rapid.SampledFrom([]int64{0x10000, 0x280000, 0x12345670}).Draw(t, "bigorgv") // label values above 64 KiB
 		}
-		return genLabelProg(t, mode, org, true)
+		return genLabelProgOpt(t, mode, org, true, true)
 	},
 	Check: func(p Prog) Verdict { return checkLabelProg("C03", &p) },
 	Enum: func(tier string, yield func(Prog)) bool {
